@@ -22,6 +22,9 @@ from tlc import MachineryError
 def negative_controls(run, report):
     r = mc.outcome(run, 3, defect="TRUE", expect_violation=True)
     report("Outcome: FloatRankUsesIndex=TRUE violates PipelineIsRule", any("PipelineIsRule" in v for v in r["violated"]))
+    r = mc.apalache_outcome(run, [3], negative=True)
+    if r is not None:
+        report("OutcomeInt (Apalache): IndexForValue=TRUE violates Inv", r == [True])
     for prop in ("PROPERTY ModelReadOnly", "INVARIANT ResultIsSequential"):
         cfg = plans.MC_THREADS_CFG % dict(threads="1, 2", reads=3, defect="TRUE", cons="MCConstructed", props=prop)
         r = mc.run_mc(run, "MC_Threads", cfg, "neg-threads", emit=False, expect_violation=True)
